@@ -13,6 +13,7 @@ import (
 	"io"
 	"net"
 	"os"
+	"path/filepath"
 	"sort"
 	"strings"
 	"sync"
@@ -28,7 +29,6 @@ import (
 	"google.golang.org/grpc/metadata"
 	"google.golang.org/grpc/status"
 	"google.golang.org/grpc/test/bufconn"
-	"google.golang.org/grpc/testdata"
 )
 
 type kase struct {
@@ -148,6 +148,12 @@ type addrConn struct {
 
 func (c addrConn) RemoteAddr() net.Addr { return c.remote }
 
+// certPath locates the test certificates of the tree under test (the binary is built with -trimpath,
+// so testdata.Path cannot be used).
+func certPath(name string) string {
+	return filepath.Join(vlib.Env("VERIF_REPO_DIR", "/repo"), "testdata", "x509", name)
+}
+
 // ---- recording server ------------------------------------------------------------------
 
 type recorder struct {
@@ -208,11 +214,11 @@ func runCase(k kase) (row map[string]any) {
 		tc, remote = local.NewCredentials(), fakeAddr{"tcp", "10.1.2.3:50051"}
 	case "tls":
 		var err error
-		tc, err = credentials.NewClientTLSFromFile(testdata.Path("x509/server_ca_cert.pem"), "x.test.example.com")
+		tc, err = credentials.NewClientTLSFromFile(certPath("server_ca_cert.pem"), "x.test.example.com")
 		if err != nil {
 			panic(err)
 		}
-		stc, err := credentials.NewServerTLSFromFile(testdata.Path("x509/server1_cert.pem"), testdata.Path("x509/server1_key.pem"))
+		stc, err := credentials.NewServerTLSFromFile(certPath("server1_cert.pem"), certPath("server1_key.pem"))
 		if err != nil {
 			panic(err)
 		}
